@@ -172,3 +172,19 @@ seed('c08-valid-return-true', 'C08', [(UVS, "    } while (!valid && attempts < a
 seed('c08-bridge-no-recheck', 'C08', [(BTS, "                si_->getStateSpace()->interpolate(endpoint, state, 0.5, state);\n                valid = si_->isValid(state);", "                si_->getStateSpace()->interpolate(endpoint, state, 0.5, state);\n                valid = true;", 0)], 'R08c')
 seed('c08-gaussian-copy-wrong', 'C08', [(GVS, "            if (v2)\n                si_->copyState(state, temp);\n            result = true;", "            if (v1)\n                si_->copyState(state, temp);\n            result = true;", 0)], 'R08c')
 seed('c08-n-std-clamp', 'C08', [(RV, "        if (v < bounds.low[i])\n            v = bounds.low[i];\n        else if (v > bounds.high[i])\n            v = bounds.high[i];\n        rstate->values[i] = v;", "        rstate->values[i] = std::min(std::max(v, bounds.low[i]), bounds.high[i]);")], None)
+
+# ---- C03 -------------------------------------------------------------------------------------------------------
+RRTC = 'src/ompl/geometric/planners/rrt/src/RRT.cpp'
+KPI = 'src/ompl/geometric/planners/kpiece/src/KPIECE1.cpp'
+LLB = 'src/ompl/geometric/planners/rrt/src/LazyLBTRRT.cpp'
+PLNC = 'src/ompl/base/src/Planner.cpp'
+SYC = 'src/ompl/control/planners/syclop/src/Syclop.cpp'
+seed('c03-status-true-without-add', 'C03', [(RRTC, "    return {solved, approximate};", "    return {true, approximate};")], 'R03a')
+seed('c03-syclop-exact-again', 'C03', [(SYC, "    return {addedSolution, !solved};", "    return addedSolution ? base::PlannerStatus::EXACT_SOLUTION : base::PlannerStatus::TIMEOUT;")], 'R03a')
+seed('c03-clear-no-base', 'C03', [(RRTC, "void ompl::geometric::RRT::clear()\n{\n    Planner::clear();", "void ompl::geometric::RRT::clear()\n{")], 'R03c')
+seed('c03-clear-keeps-lastgoal', 'C03', [(RRTC, "    lastGoalMotion_ = nullptr;\n}", "}")], 'R03c')
+seed('c03-early-return-leak', 'C03', [(KPI, "    base::State *xstate = si_->allocState();\n", "    base::State *xstate = si_->allocState();\n    if (ptc)\n        return base::PlannerStatus::TIMEOUT;\n")], 'R03d')
+seed('c03-freememory-dangling', 'C03', [(LLB, "    delete LPAstarApx_;\n    LPAstarApx_ = nullptr;", "    delete LPAstarApx_;")], 'R03g')
+seed('c03-pis-clear-keeps-count', 'C03', [(PLNC, "    addedStartStates_ = 0;\n    sampledGoalsCount_ = 0;\n    pdef_.reset();", "    sampledGoalsCount_ = 0;\n    pdef_.reset();")], 'R03h')
+seed('c03-nextstart-no-bounds', 'C03', [(PLNC, "        bool valid = bounds ? si_->isValid(st) : false;\n        if (bounds && valid)\n            return st;", "        bool valid = si_->isValid(st);\n        if (valid)\n            return st;")], 'R03h')
+seed('c03-n-free-reordered', 'C03', [(RRTC, "    si_->freeState(xstate);\n    if (rmotion->state != nullptr)\n        si_->freeState(rmotion->state);\n    delete rmotion;", "    if (rmotion->state != nullptr)\n        si_->freeState(rmotion->state);\n    delete rmotion;\n    si_->freeState(xstate);")], None)
